@@ -281,10 +281,13 @@ impl Domain for ClusterDomain {
                 self.dists[i].as_ref().expect("dist").put(&ksn(), doc.clone());
                 // one batching tick (1 s) plus the RPCs; poll until the set of holders has been stable for 300 ms
                 // (and non-empty, or 2.6 s have passed): robust on a loaded machine
+                // `dist-put ... late`: a member of the previous batch stays silent, the tick that sends this write begins once
+                // the distributor has given up on it (REQUEST_TIMEOUT, 10 s)
+                let late: u64 = if t.get(4) == Some(&"late") { 11_500 } else { 0 };
                 let mut got: Vec<String> = Vec::new();
                 let mut stable = 0;
                 let mut waited = 1100;
-                rt.block_on(async { tokio::time::sleep(Duration::from_millis(1100)).await });
+                rt.block_on(async { tokio::time::sleep(Duration::from_millis(1100 + late)).await });
                 loop {
                     let mut now = Vec::new();
                     for (j, nj) in self.nodes.iter().enumerate() {
